@@ -95,6 +95,26 @@ def ellipsis_soup(rng):
     return text + " " + " ".join(rng.choice(uses) for _ in range(rng.randrange(1, 4)))
 
 
+def long_value_errors(rng):
+    """errors whose MESSAGE has to print a long value: strings, symbols and lists of 20-90 characters drawn from 1-, 2-, 3- and
+    4-byte characters, so that any byte offset may fall inside a character; used as the wrong argument of accessors,
+    arithmetic, apply, as a non-procedure operator and as an out-of-range / immutable vector"""
+    alph = ["a", "b", "\u00e9", "\u00fc", "\u03bb", "\u4e2d", "\u6587", "\U0001f600", "x", " "]
+    n = rng.randrange(20, 90)
+    body = "".join(rng.choice(alph) for _ in range(n)).strip() or "a"
+    k = rng.randrange(4)
+    if k == 0:
+        v = '"%s"' % body
+    elif k == 1:
+        v = "'|%s|" % body.replace("|", "")
+    elif k == 2:
+        v = "'(%s)" % " ".join('"%s"' % body[i:i + 7] for i in range(0, len(body), 7))
+    else:
+        v = "(vector %s)" % " ".join('"%s"' % body[i:i + 5] for i in range(0, len(body), 5))
+    return rng.choice(["(car %s)", "(+ 1 %s)", "(%s 1)", "(apply car %s)", "(vector-ref %s 0)", "(vector-set! %s 0 0)", "(cdr (list %s))",
+                       "(let ((f %s)) (f))", "(- %s)", "(vector-ref (vector 1) %s)", "(undefined-zz %s)"]) % v
+
+
 def import_soup(rng):
     libs = ["(scheme base)", "(scheme base)", "(scheme write)", "(ruschm base)", "(no such)", "(scheme)"]
     names = ["car", "cdr", "cons", "+", "list", "display", "map", "nope", "car", "x"]
@@ -155,6 +175,8 @@ def run(rep, tier, rng):
         texts.append(("macro-soup", macro_soup(rng)))
     for _ in range(400 if tier == "quick" else 8000):
         texts.append(("ellipsis-soup", ellipsis_soup(rng)))
+    for _ in range(500 if tier == "quick" else 10000):
+        texts.append(("long-value-error", long_value_errors(rng)))
     maxlen = 4
     for L in range(1, maxlen + 1):
         for t in itertools.product(ALPHA20, repeat=L):
